@@ -31,6 +31,11 @@ pub enum ProbeCase {
         /// many operations (builds without the feature run the plain store; transcripts must agree)
         #[serde(default)]
         hangup_after: Option<u8>,
+        /// the program runs on a producer; its node stream is mirrored into a second store (frontend
+        /// builds: with_sender / with_receiver / recv; other builds: `Bdd::from(nodes)`), which is
+        /// repaired with fix_import and then runs the program again: that second run is what is reported
+        #[serde(default)]
+        mirror: bool,
     },
 }
 
@@ -42,7 +47,7 @@ fn hex(t: &[u64]) -> String {
 /// build (false iff adhoccounting without adhoccountmodels).
 pub fn run(case: &ProbeCase, memo_models_valid: bool) -> Result<Value, String> {
     match case {
-        ProbeCase::Ops { prog, goal_var, hangup_after } => {
+        ProbeCase::Ops { prog, goal_var, hangup_after, mirror } => {
             let k = prog.k as usize;
             #[cfg(feature = "frontend")]
             let (mut sh, mut listener) = match hangup_after {
@@ -55,6 +60,35 @@ pub fn run(case: &ProbeCase, memo_models_valid: bool) -> Result<Value, String> {
             #[cfg(not(feature = "frontend"))]
             let mut sh = Shadow::new(k).with_spread(prog.spread);
             let _ = hangup_after;
+            if *mirror && hangup_after.is_none() {
+                #[cfg(feature = "frontend")]
+                let second = {
+                    let (s, r) = crossbeam_channel::unbounded::<adf_bdd::datatypes::BddNode>();
+                    let mut producer = Shadow::with_bdd(k, adf_bdd::obdd::Bdd::with_sender(s)).with_spread(prog.spread);
+                    for (i, op) in prog.ops.iter().enumerate() {
+                        producer.step(op).map_err(|e| format!("producer step {i}: {e}"))?;
+                    }
+                    let mut m = adf_bdd::obdd::Bdd::with_receiver(r);
+                    let want = producer.bdd.nodes.len();
+                    m.recv(adf_bdd::datatypes::Term(want));
+                    if m.nodes != producer.bdd.nodes {
+                        return Err("mirror differs from the producer after draining".into());
+                    }
+                    m.fix_import();
+                    m
+                };
+                #[cfg(not(feature = "frontend"))]
+                let second = {
+                    let mut producer = Shadow::new(k).with_spread(prog.spread);
+                    for (i, op) in prog.ops.iter().enumerate() {
+                        producer.step(op).map_err(|e| format!("producer step {i}: {e}"))?;
+                    }
+                    let mut m = adf_bdd::obdd::Bdd::from(producer.bdd.nodes.clone());
+                    m.fix_import();
+                    m
+                };
+                sh = Shadow::with_bdd(k, second).with_spread(prog.spread);
+            }
             let mut steps = Vec::new();
             for (i, op) in prog.ops.iter().enumerate() {
                 #[cfg(feature = "frontend")]
